@@ -161,7 +161,7 @@ theorem beginBlock_roles {s : St} {dt : Nat} (h : Roles s) : Roles (beginBlock s
       exact h.core.dueOk (List.mem_filter.1 he).1
     · intro b a ha hb; exact beginStep_inv ha hb
   have hnq := beginFold_nq (s.nq.filter (fun e => decide (e.1 ≤ s.t + dt))) { s with h := s.h + 1, t := s.t + dt }
-  refine ⟨⟨hinv.core.uniq, hinv.core.prop, hinv.core.succ, hinv.core.ne, hinv.core.optOut, hinv.core.nq, ?_, hinv.core.np⟩, hinv.sp⟩
+  refine ⟨⟨hinv.core.uniq.of_eq rfl rfl, hinv.core.prop, hinv.core.succ, hinv.core.ne, hinv.core.optOut, hinv.core.nq, ?_, hinv.core.np⟩, hinv.sp⟩
   intro x hx
   rw [hnq.1]
   have := hnq.2 x hx
